@@ -255,6 +255,262 @@ def conversion_cases(ctx, si, batch):
             ctx._c10_prev_units = (prev_units + [a])[-8:]
 
 
+# ------------------------------------------------------------------------------ conversions between different float routes
+# Two expressions are compatible when the exponents that follow from the definitions are the same NUMBERS, however they are
+# written: m^0.1 m^0.2, (m^0.1)^3, m^0.5/m^0.2 and m^0.3 are all m^(3/10), although the doubles the package accumulates
+# (0.30000000000000004, 0.30000000000000004, 0.3, 0.3) differ in the last bits.  Every conversion entry point must treat them alike.
+ROUTE_PARTS = ['0.1', '0.2', '0.3', '0.7', '1.1', '2.2', '0.15', '0.35', '1.3', '0.6', '0.9', '2.7', '0.05', '1.7', '3.3', '0.45',
+               '0.8', '0.4', '1.9', '0.01', '0.07']
+ROUTE_BASES = [('', 'm'), ('', 's'), ('', 'K'), ('', 'mol'), ('k', 'm'), ('c', 'm'), ('', 'kg'), ('m', 's'), ('', 'A'), ('', 'cd'),
+               ('', 'min'), ('', 'g'), ('da', 'm')]
+ROUTE_EXTRA = [None, None, None, ('name', '', 'J'), ('name', 'k', 'J'), ('name', '', 'cal'), ('name', '', 'atm'), ('name', '', 'N')]
+ROUTE_WAYS = ['Quantity.in_units(str)', 'Quantity.in_units(Quantity)', 'helpers.in_units(q,str)', 'helpers.in_units(q,Quantity)',
+              'Quantity.fmt_in_units(str)', 'ArrayQuantity.in_units(str)', 'ArrayQuantity.in_units(Quantity)',
+              'ArrayQuantity.fmt_in_units(str)', 'there-and-back']
+ROUTE_ARR = [1.0, 2.0, -0.5]
+# hand-written pairs that are always run (the reach of the class does not depend on the seed)
+ROUTE_FIXED = [('m^0.1 m^0.2', 'm^0.3'), ('3 s^1.1 s^2.2', 's^3.3'), ('2 km^0.1 km^0.2', 'm^0.3'), ('7 K^0.3', 'K^0.1 K^0.2'),
+               ('(mol^0.1)^3', 'mol^0.3'), ('5 J/(m^0.1 m^0.2)', 'J/m^0.3'), ('4 m^0.5 m^0.5', 'm'), ('6 m^0.25 m^0.5', 'cm^0.75'),
+               ('2 m^0.7 m^0.2 m^0.1', 'cm'), ('3 s^0.7/s^0.4', 'ms^0.3'), ('m^0.1 m^0.2', 'm^0.31'), ('m^0.3', 'm^0.1 m^0.201'),
+               ('2 kg^-0.1 kg^-0.2', 'g^-0.3'), ('(A^0.6)^0.5 A^0.4', 'A^0.7')]
+
+
+def _dec(q):
+    """a rational with a finite decimal expansion as the shortest positional literal of the unit grammar"""
+    from decimal import Decimal
+    q = Fraction(q)
+    s = format(Decimal(q.numerator) / Decimal(q.denominator), 'f')
+    if '.' in s:
+        s = s.rstrip('0').rstrip('.')
+    return s or '0'
+
+
+def _finite_decimal(q, places=4):
+    return (Fraction(q) * 10 ** places).denominator == 1
+
+
+def route_tree(rng, base, e):
+    """(route name, tree) of base^e written by one of several routes whose exponents add/multiply up to exactly e"""
+    b = ('name',) + tuple(base)
+    e = Fraction(e)
+    lit = lambda x: ('pow', b, _dec(x), rng.random() < 0.25)
+    for _ in range(20):
+        k = rng.choice(['literal', 'sum2', 'sum2', 'sum3', 'quot', 'powpow', 'powpow'])
+        if k == 'literal':
+            return k, (b if e == 1 and rng.random() < 0.5 else lit(e))
+        if k == 'sum2':
+            a = Fraction(rng.choice(ROUTE_PARTS)) * rng.choice([1, 1, 1, -1])
+            if a != e and a != 0:
+                return k, ('chain', lit(a), [(rng.choice('*j'), lit(e - a))])
+        if k == 'sum3':
+            a, c = Fraction(rng.choice(ROUTE_PARTS)), Fraction(rng.choice(ROUTE_PARTS))
+            if e - a - c != 0:
+                return k, ('chain', lit(a), [(rng.choice('*j'), lit(c)), (rng.choice('*j'), lit(e - a - c))])
+        if k == 'quot':
+            c = Fraction(rng.choice(ROUTE_PARTS))
+            if e + c != 0:
+                return k, ('chain', lit(e + c), [('/', lit(c))])
+        if k == 'powpow':
+            m = Fraction(rng.choice(['2', '3', '4', '5', '0.5', '2.5', '0.2', '1.5', '-1', '-2', '6', '7']))
+            if _finite_decimal(e / m) and e / m != 0:
+                return k, ('pow', ('paren', lit(e / m)), _dec(m), rng.random() < 0.25)
+    return 'literal', lit(e)
+
+
+def route_pair(rng):
+    """two trees with exactly the same dimension (some exponent not an integer, reached by independently chosen routes), or --
+    one time in six -- with one exponent moved by 0.01 / 0.001 (incompatible: far outside the documented 1e-7 grid)"""
+    bases = rng.sample(ROUTE_BASES, rng.choice([1, 1, 2]))
+    # one physical base dimension per factor (m, km, cm, dam share one): keep the first of each
+    seen, keep = set(), []
+    for p, u in bases:
+        d = {'min': 's', 'g': 'kg'}.get(u, u)
+        if d not in seen:
+            seen.add(d)
+            keep.append((p, u))
+    sides, kinds = [[], []], []
+    off = rng.random() < 1 / 6
+    for i, (p, u) in enumerate(keep):
+        while True:
+            e = Fraction(rng.choice(ROUTE_PARTS)) + Fraction(rng.choice(ROUTE_PARTS + ['0', '0', '1'])) * rng.choice([1, 1, -1])
+            if e != 0:
+                break
+        e *= rng.choice([1, 1, 1, -1])
+        for s in (0, 1):
+            pu = (p, u)
+            if s == 1 and rng.random() < 0.4:     # the target in another prefix of the same unit
+                pu = (rng.choice(['', 'k', 'c', 'm']), u) if u in ('m', 's', 'g', 'mol', 'K', 'A') else pu
+            ee = e + (Fraction(rng.choice(['0.01', '0.001', '-0.01'])) if (off and s == 1 and i == 0) else 0)
+            if ee == 0:
+                ee = e + Fraction('0.01')
+            kind, t = route_tree(rng, pu, ee)
+            kinds.append(kind)
+            sides[s].append(t)
+    extra, extra_op = rng.choice(ROUTE_EXTRA), rng.choice('*/')
+    out = []
+    for s in (0, 1):
+        fs = list(sides[s])
+        rng.shuffle(fs)
+        t = fs[0] if len(fs) == 1 else ('chain', fs[0], [(rng.choice('*j'), f) for f in fs[1:]])
+        if extra is not None:
+            t = ('chain', extra, [(extra_op, ('paren', t) if t[0] == 'chain' else t)])
+        out.append(t)
+    x = rng.choice(['2', '3', '0.5', '12', '7', '2.54', '1'])
+    qty = ('chain', ('num', x), [('j', ('paren', out[0]) if out[0][0] == 'chain' else out[0])])
+    return qty, out[1], '+'.join(kinds)
+
+
+def convert_way(way, qtext, utext):
+    """canonical outcome of one conversion entry point: {'val': number} | {'arr': [...]} | {'err': class}"""
+    import numpy as np
+    from pgradd.Units import eval_qty, in_units, with_units
+
+    def parse_fmt(text, tail):
+        if not isinstance(text, str) or not text.endswith(' ' + tail):
+            raise TypeError('fmt_in_units: %r' % (text,))
+        return text[:-len(tail) - 1]
+
+    def go():
+        q = eval_qty(qtext)
+        if way == 'Quantity.in_units(str)':
+            return q.in_units(utext)
+        if way == 'Quantity.in_units(Quantity)':
+            return q.in_units(eval_qty(utext))
+        if way == 'helpers.in_units(q,str)':
+            return in_units(q, utext)
+        if way == 'helpers.in_units(q,Quantity)':
+            return in_units(q, eval_qty(utext))
+        if way == 'Quantity.fmt_in_units(str)':
+            return float(parse_fmt(q.fmt_in_units(utext), utext))
+        if way == 'ArrayQuantity.in_units(str)':
+            return np.asarray((np.array(ROUTE_ARR) * q).in_units(utext))
+        if way == 'ArrayQuantity.in_units(Quantity)':
+            return np.asarray((np.array(ROUTE_ARR) * q).in_units(eval_qty(utext)))
+        if way == 'ArrayQuantity.fmt_in_units(str)':
+            body = parse_fmt((np.array(ROUTE_ARR) * q).fmt_in_units(utext), utext)
+            return np.array([float(t) for t in body.replace('[', ' ').replace(']', ' ').split()])
+        if way == 'there-and-back':
+            # x [qty's unit] -> number in the target unit -> quantity -> number in the first unit
+            return in_units(with_units(in_units(q, utext), utext), qtext)
+        raise common.MachineryError('unknown conversion way %r' % way)
+    return L.call(go)
+
+
+def route_verdict(si, qtree, utree, way, r):
+    """None if outcome r of `way` is what the property demands for converting qtree to utree, else the expected outcome"""
+    v1, d1, t1, _ = L.denote(si, qtree)
+    v2, d2, t2, _ = L.denote(si, utree)
+    if d1 != d2:
+        return None if r.get('err') == 'unitsError' else 'unitsError'
+    ratio = float(v1) / float(v2)
+    rel = (t1 + t2) * 1.001 + 1e-9
+    if way.endswith('fmt_in_units(str)'):
+        rel += 2e-5      # '%g' keeps six significant digits
+    if way == 'there-and-back':
+        want = [1.0]
+    elif way.startswith('Array'):
+        want = [ratio * a for a in ROUTE_ARR]
+    else:
+        want = [ratio]
+    got = r.get('arr') if 'arr' in r else ([r['val']] if 'val' in r else None)
+    # numpy's str() of an array keeps eight places after the point of the largest element (fixed or scientific notation)
+    slack = 1e-3 * max(abs(w) for w in want) if way == 'ArrayQuantity.fmt_in_units(str)' else 0.0
+    ok = (got is not None and len(got) == len(want) and not any(r.get('dim', [0])) and
+          all(abs(g - w) <= rel * abs(w) + slack + 1e-300 for g, w in zip(got, want)))
+    return None if ok else {('arr' if len(want) > 1 else 'val'): want if len(want) > 1 else want[0], 'rel_tol': rel}
+
+
+def route_conversions(ctx, si, batch):
+    from pgradd.Units import eval_qty
+    rng = ctx.rng
+    pairs = [(None, None, qt, ut, 'fixed') for qt, ut in ROUTE_FIXED]
+    for _ in range(ctx.n(350, 6000)):
+        qtree, utree, kinds = route_pair(rng)
+        pairs.append((qtree, utree, L.join_tokens(rng, L.tokens_of(qtree), tight=rng.choice([0.0, 0.5, 1.0])),
+                      L.join_tokens(rng, L.tokens_of(utree), tight=rng.choice([0.0, 0.5, 1.0])), kinds))
+    for qtree, utree, qtext, utext, kinds in pairs:
+        if qtree is None:
+            qtree, utree = parse_simple(qtext), parse_simple(utext)
+        try:
+            d1, d2 = L.denote(si, qtree)[1], L.denote(si, utree)[1]
+        except L.Domain:
+            ctx.count('route_skipped_out_of_range')
+            continue
+        if not any(d1) or not any(d2):
+            continue
+        ctx.case('route:%s:%s' % (qtext, utext), {'qty': qtext, 'units': utext, 'routes': kinds})
+        ctx.count('route_pairs_' + ('compatible' if d1 == d2 else 'incompatible'))
+        a, b = L.call(eval_qty, qtext), L.call(eval_qty, utext)
+        if d1 == d2 and 'dim' in a and 'dim' in b and a['dim'] != b['dim']:
+            ctx.count('route_pairs_compatible_with_different_float_exponents')
+        first = None
+        for way in ROUTE_WAYS:
+            if way == 'there-and-back' and d1 != d2:
+                continue
+            r = convert_way(way, qtext, utext)
+            ctx.count('route_way_' + way)
+            first = r if first is None else first
+            want = route_verdict(si, qtree, utree, way, r)
+            if want is not None:
+                inp = {'qty': qtext, 'units': utext, 'way': way, 'routes': kinds, 'qty_tree': qtree, 'units_tree': utree,
+                       'exponents_by_definition': [str(x) for x in d1],
+                       'float_exponents': {'qty': a.get('dim'), 'units': b.get('dim')}}
+                ctx.violation('conversion between two expressions of the same dimension (non-integer exponents written by '
+                              'different routes) is not the ratio of magnitudes' if d1 == d2 else
+                              'conversion to an incompatible unit (exponents differ by 0.001 or more) does not raise the units error',
+                              inp, want, r)
+        batch.append(({'op': 'c10.in_units', 'qty': qtext, 'units': utext}, first, {'qty': qtext, 'units': utext}))
+
+
+def parse_simple(text):
+    """tree of one of the hand-written ROUTE_FIXED texts (numbers, names with the prefixes k/c/m, ^, *, /, juxtaposition, one level
+    of parentheses): a small reader of the harness's own, so that the expected dimension never comes from the package"""
+    import re
+    toks = re.findall(r'-?[.\d]+|[a-zA-Z]+|\S', text)
+    pos = [0]
+
+    units = ('m', 's', 'K', 'mol', 'kg', 'g', 'A', 'J', 'cd', 'min')
+
+    def name(t):
+        if t in units:                     # the name itself first, then prefix + name (the lookup order of the package)
+            return ('name', '', t)
+        for p in ('da', 'k', 'c', 'm'):
+            if t.startswith(p) and t[len(p):] in units:
+                return ('name', p, t[len(p):])
+        raise common.MachineryError('parse_simple: name %r' % t)
+
+    def base():
+        t = toks[pos[0]]
+        pos[0] += 1
+        if t == '(':
+            e = expr()
+            pos[0] += 1
+            return ('paren', e)
+        return ('num', t) if t[0] in '-.0123456789' else name(t)
+
+    def factor():
+        b = base()
+        if pos[0] < len(toks) and toks[pos[0]] == '^':
+            x = toks[pos[0] + 1]
+            pos[0] += 2
+            return ('pow', b, x, False)
+        return b
+
+    def expr():
+        first, rest = factor(), []
+        while pos[0] < len(toks) and toks[pos[0]] != ')':
+            op = 'j'
+            if toks[pos[0]] in '*/':
+                op = toks[pos[0]]
+                pos[0] += 1
+            rest.append((op, factor()))
+        return ('chain', first, rest) if rest else first
+    t = expr()
+    if pos[0] != len(toks):
+        raise common.MachineryError('parse_simple: %r' % text)
+    return t
+
+
 def gas_constant_check(ctx, si):
     from pgradd import Consts
     R = Consts.GAS_CONSTANT
@@ -453,6 +709,7 @@ def _run(ctx):
     recursion_probe(ctx)
     # 6. conversions and constants
     conversion_cases(ctx, si, batch)
+    route_conversions(ctx, si, batch)
     gas_constant_check(ctx, si)
     # the tie
     replies = ctx.model([b[0] for b in batch])
@@ -523,7 +780,13 @@ def conversion_replay(ctx, si, inp):
     from pgradd.Units import eval_qty, with_units, in_units, to_SI_from, from_SI_to
     if 'const' in inp:
         return gas_constant_check(ctx, si)
-    if 'qty' in inp:
+    if 'way' in inp:
+        qtree, utree = to_tuple(inp['qty_tree']), to_tuple(inp['units_tree'])
+        r = convert_way(inp['way'], inp['qty'], inp['units'])
+        want = route_verdict(si, qtree, utree, inp['way'], r)
+        if want is not None:
+            ctx.violation('conversion between expressions whose exponents are written by different routes: %s' % inp['way'], inp, want, r)
+    elif 'qty' in inp:
         r = L.call(lambda: eval_qty(inp['qty']).in_units(inp['units']))
         a, b = L.call(eval_qty, inp['qty']), L.call(eval_qty, inp['units'])
         if 'val' in a and 'val' in b:
